@@ -23,7 +23,7 @@ SHRINK_KEYS = ('msgs', 'cuts')
 ASSUMPTIONS = [
     'independent RFC 9174 codec vlib/ref9174.py; MSG_REJECT octet order follows the pinned unit-test vector',
     'a "read" is one recv() of at most CHUNK_SIZE octets on the simulated socket',
-    'octets following the contact header in the same flight are not generated (a conforming peer cannot send them)',
+    'no TLS in these streams, so octets may follow the contact header in the same read (ch_joined cases)',
     'XFER_REFUSE and XFER_ACK for unknown transfers are left to C17 (they raise in the handler, not in the framing)',
 ]
 EXHAUSTIVE_PART = 'all 2^(n-1) cut compositions of post-handshake streams up to 12 (quick) / 16 (thorough) octets; every single cut and octet-at-a-time for all enumerated streams'
@@ -174,6 +174,7 @@ def stream_cases(draw):
             step = max(step, total // 400)
         cuts = set(range(step, total, step))
     case['cuts'] = sorted(c for c in cuts if 0 < c < total)
+    case['ch_joined'] = draw(st.booleans())
     return case
 
 
@@ -236,16 +237,22 @@ def enumerate_cases(tier):
             for init in inits:
                 base = {'kind': 'stream', 'active': active, 'sess_init': init, 'msgs': msgs, 'queue_own': True}
                 data, _refs = _render(base)
+                yield dict(base, cuts=[], ch_joined=True)
                 for cut in range(1, len(data)):
                     yield dict(base, cuts=[cut])
+                    yield dict(base, cuts=[cut], ch_joined=True)
                 yield dict(base, cuts=list(range(1, len(data))))
                 for _ in range(6):
-                    yield dict(base, cuts=sorted(rnd.sample(range(1, len(data)), min(5, len(data) - 1))))
+                    yield dict(base, cuts=sorted(rnd.sample(range(1, len(data)), min(5, len(data) - 1))),
+                               ch_joined=bool(rnd.getrandbits(1)))
 
 
 def pinned_cases():
     yield 'keepalive-ends-read', {'kind': 'stream', 'active': False, 'sess_init': None, 'queue_own': False,
                                   'msgs': [{'t': 'KEEPALIVE'}], 'cuts': []}
+    yield 'contact-header-and-sess-init-in-one-read', {'kind': 'stream', 'active': True, 'sess_init': None,
+                                                       'queue_own': False, 'ch_joined': True,
+                                                       'msgs': [{'t': 'KEEPALIVE'}], 'cuts': []}
     yield 'contact-split', {'kind': 'stream', 'active': False, 'sess_init': None, 'queue_own': False,
                             'msgs': [{'t': 'KEEPALIVE'}, {'t': 'KEEPALIVE'}], 'cuts': [3, 6, 20]}
 
@@ -257,8 +264,9 @@ def run_stream(case, out):
     import dbus
     data, refs = _render(case)
     total = len(data)
-    # the contact header always travels alone: a conforming peer must see our header before it may send SESS_INIT
-    cuts = sorted(set([c for c in case.get('cuts', []) if 0 < c < total] + [6]))
+    # ch_joined: the octets after the contact header may share a read with it (a passive peer that has already seen
+    # our header may send its header and SESS_INIT in one flight; the property quantifies over every split anyway)
+    cuts = sorted(set([c for c in case.get('cuts', []) if 0 < c < total] + ([] if case.get('ch_joined') else [6])))
     active = bool(case.get('active'))
     cfg = tw.make_config('dtn://real/')
     world = tw.World(cfg, scripted=True, real_is_passive=not active)
@@ -351,6 +359,7 @@ def run_stream(case, out):
     bounds = set(m['end'] for m in want)
     split_inside = any(c not in bounds for c in cuts)
     out.nontrivial = len(want) >= 3 and split_inside
+    out.label('ch-joined' if case.get('ch_joined') and (not cuts or cuts[0] > 6) else 'ch-alone')
     out.label('active' if active else 'passive', 'msgs:%d' % min(len(want), 9),
               'split-inside' if split_inside else 'no-split', 'cuts:%s' % ('0' if not cuts else ('1' if len(cuts) == 1 else 'many')))
     for ref in want:
